@@ -395,6 +395,10 @@ pub struct World {
     last_touch: BTreeMap<u64, u64>,
     /// the application may reuse the id of a request in flight (focus c19dup)
     dup_ids: bool,
+    /// random (unscripted) requests of peers may be sealed under junk keys
+    junk_keys: bool,
+    /// the next request of a peer is sealed under this junk key (0 = all zero, 1 = all ones, 2 = one bit off)
+    force_junk: Option<u8>,
     /// source address override for the next answer (an answer presented from another address)
     answer_src: Option<SocketAddr>,
     /// sequence number of the record the application last supplied for a peer (who-are-you answer)
@@ -496,6 +500,8 @@ impl World {
             ttl_ms: 86_400_000,
             last_touch: BTreeMap::new(),
             dup_ids: false,
+            junk_keys: false,
+            force_junk: None,
             answer_src: None,
             known_seq: BTreeMap::new(),
             out_challenges: vec![],
@@ -972,7 +978,9 @@ impl Runner {
         let pi = self.w.peers.iter().position(|p| p.id == na.node_id);
         match t {
             APkt::Who { idn, cd, n, .. } => {
-                if is_new && !self.w.idnonces_seen.insert(*idn) {
+                // (a WHOAREYOU is never retransmitted: a second datagram with the same id-nonce - also a
+                // byte-identical one - is a repetition)
+                if !self.w.idnonces_seen.insert(*idn) {
                     self.w.fail("C19", "the id-nonce of a WHOAREYOU packet repeats".into());
                 }
                 if let (Some(pi), true) = (pi, is_new) {
@@ -1371,6 +1379,7 @@ impl Runner {
         let n = events.len();
         if wires.len() != n {
             self.w.failures.push(("C20".into(), format!("the application answered {} requests at once, {} datagrams reached the wire", n, wires.len())));
+            self.w.failures.push(("C14".into(), format!("{} answers (PONG / TALKRESP) were handed to the handler at once, {} datagrams reached the wire", n, wires.len())));
         }
         let mut wi = wires.into_iter().zip(times.into_iter());
         for (k, (_, ev)) in events.into_iter().enumerate() {
@@ -1465,6 +1474,12 @@ impl Runner {
                     && self.buffered_outs.iter().any(|o| matches!(o, HandlerOut::Established(..) | HandlerOut::UnverifiableEnr { .. } | HandlerOut::Request(..) | HandlerOut::Response(..)))
                 {
                     self.w.failures.push(("C03".into(), "a replayed handshake packet was accepted (session established / message delivered)".into()));
+                    // C01: a node is treated as X only on an answer to a FRESH challenge; C02: the message
+                    // of the replayed datagram is handed over a second time
+                    self.w.failures.push(("C01".into(), "a replayed handshake packet (its WHOAREYOU was answered before) established a session or reported a node again".into()));
+                    if self.buffered_outs.iter().any(|o| matches!(o, HandlerOut::Request(..) | HandlerOut::Response(..))) {
+                        self.w.failures.push(("C02".into(), "the message inside a replayed handshake packet was delivered again".into()));
+                    }
                 }
                 self.close_step(format!("EvInbound {} {}", a, t.coq())).await;
             }
@@ -1703,7 +1718,24 @@ impl Runner {
             return self.net_random(rng, pi).await;
         }
         let n = self.w.peers[pi].keys.len();
-        let (ek, _) = if old_keys && n >= 2 { self.w.peers[pi].keys[n - 2] } else { self.w.peers[pi].keys[n - 1] };
+        let (mut ek, _) = if old_keys && n >= 2 { self.w.peers[pi].keys[n - 2] } else { self.w.peers[pi].keys[n - 1] };
+        // one request in eight (never a scripted one) is sealed under a key no handshake produced: the
+        // all-zero key, all ones, or the session key with one bit flipped - anyone can do that in the
+        // peer's name, nothing of it may be delivered
+        let forced_junk = self.w.force_junk.take();
+        let junk_key = forced_junk.is_some() || (self.w.junk_keys && !as_other && rng.chance(1, 8));
+        if junk_key {
+            ek = match forced_junk.map(|x| x as u64).unwrap_or_else(|| rng.below(3)) {
+                0 => [0u8; 16],
+                1 => [0xffu8; 16],
+                _ => {
+                    let mut k = ek;
+                    k[rng.below(16) as usize] ^= 1 << rng.below(8);
+                    k
+                }
+            };
+            self.w.hist.add("request:under_a_key_no_handshake_produced");
+        }
         // a peer that holds a session of its own names another node as the source of its packet: the
         // session is that of (this address, this peer), so the packet finds none and nothing of it is
         // delivered in the other node's name
@@ -1720,7 +1752,12 @@ impl Runner {
         p.message = toolkit_encrypt(&ek, nonce, &req, &aad).unwrap();
         let bytes = wire_encode(&p, self.w.pid, &self.w.local_id);
         let src = self.w.peers[pi].addr;
-        self.inject(src, bytes, "request", pi, false, if borrowed { Some(victim) } else { None }).await;
+        let n0 = self.steps.len();
+        self.inject(src, bytes, if junk_key { "junk-key-request" } else { "request" }, pi, false, if borrowed { Some(victim) } else { None }).await;
+        if junk_key && self.steps[n0..].iter().any(|s| s.outs.iter().any(|o| matches!(o, AOut::Request(..) | AOut::Response(..)))) {
+            self.w.failures.push(("C02".into(), "a message sealed under a key that no handshake with this node produced was delivered".into()));
+            self.w.failures.push(("C01".into(), "a request was attributed to a node on the strength of a key that no handshake produced".into()));
+        }
     }
 
     async fn net_answer(&mut self, rng: &mut Rng, req: usize, style: u8) {
@@ -1820,7 +1857,16 @@ impl Runner {
             _ => right,
         };
         let n0 = self.steps.len();
+        let retired = !self.w.reqs[qi].external && self.w.reqs[qi].answered;
         self.inject(src, bytes, "whoareyou", pi, false, None).await;
+        if retired {
+            // C03: the handler's own record request was answered, it is no longer in flight: a WHOAREYOU
+            // that echoes its nonce finds nothing to challenge
+            let earlier: Vec<&APkt> = self.steps[..n0].iter().flat_map(|s| s.wires.iter().map(|(_, p)| p)).filter(|p| matches!(p, APkt::Hs { .. })).collect();
+            if self.steps[n0..].iter().any(|s| s.wires.iter().any(|(_, p)| matches!(p, APkt::Hs { .. }) && !earlier.contains(&p)) || s.outs.iter().any(|o| matches!(o, AOut::Established(..)))) {
+                self.w.failures.push(("C03".into(), "a WHOAREYOU for a request that is no longer in flight (the answered record request) was answered with a handshake".into()));
+            }
+        }
         if src != right {
             // C03: a WHOAREYOU is acted on only if it comes from the address the request was sent to
             // (a handshake packet that was on the wire before is a retransmission by a timer)
@@ -2022,7 +2068,7 @@ async fn run_case(seed: u64, idx: u64, focus: &str, thorough: bool, fixes: &str)
     // scripted opening for the nonce property: several requests under the first keys, a re-key
     // started by the peer (it challenges an in-flight request), a message of the peer still under
     // the first keys (the session falls back to them), then further requests
-    if focus == "c19" && rng.chance(1, 3) {
+    if (focus == "c19" && rng.chance(1, 3)) || (matches!(focus, "c01" | "c02") && rng.chance(1, 5)) {
         let p = rng.below(npeers as u64) as usize;
         r.app_request(&mut rng, p, true, 0).await;
         let q0 = r.w.reqs.len() - 1;
@@ -2038,6 +2084,15 @@ async fn run_case(seed: u64, idx: u64, focus: &str, thorough: bool, fixes: &str)
             r.app_request(&mut rng, p, true, 2).await;
         }
         moves.push("scripted: requests, re-key by the peer, message under the old keys, requests".into());
+        // ... and then datagrams in the peer's name sealed under keys that no handshake produced (the
+        // retired generation of keys must be gone or intact, never replaced by something guessable)
+        if matches!(focus, "c01" | "c02") {
+            for k in [0u8, 1, 0] {
+                r.w.force_junk = Some(k);
+                r.net_request(&mut rng, p, false, false).await;
+            }
+            moves.push("scripted: three datagrams of the peer under the all-zero / all-ones key".into());
+        }
     }
     // scripted opening for session expiry (short session timeouts only): sessions with one or two
     // peers, silence for longer than the timeout (or just short of it), then traffic in either
@@ -2109,8 +2164,14 @@ async fn run_case(seed: u64, idx: u64, focus: &str, thorough: bool, fixes: &str)
         r.app_answer_wru(0, 1 + rng.below(3) as u8).await;
         let first = rng.range(60, 180);
         r.advance(first).await;
-        r.net_random(&mut rng, p).await;
-        r.app_answer_wru(0, 1 + rng.below(3) as u8).await;
+        if rng.chance(1, 2) {
+            r.net_random(&mut rng, p).await;
+            r.app_answer_wru(0, 1 + rng.below(3) as u8).await;
+        } else {
+            // ... or a request of the application to that peer, which waits behind the challenge (and
+            // must not prolong it)
+            r.app_request(&mut rng, p, true, 0).await;
+        }
         r.advance(TIMEOUT_MS / GRID_MS + 4 - first).await;
         r.net_handshake(&mut rng, 3, HsVariant::Honest).await;
         r.w.hist.add("scripted:second_packet_while_challenged_then_late_handshake");
@@ -2259,6 +2320,7 @@ async fn run_case(seed: u64, idx: u64, focus: &str, thorough: bool, fixes: &str)
             moves.push("scripted: the peer answers the internal record request".into());
         }
     }
+    r.w.junk_keys = true;
     for _ in 0..nmoves {
         let m = gen_move(&mut rng, npeers, focus);
         moves.push(format!("{:?}", m));
